@@ -25,15 +25,62 @@ const FAMS: &[Fam] = &[
     Fam { key: "bin:0102", ty: "'bin", exprs: &["0x0102", "[0x01, 0x02] __binary_concat__", "[0x010203, 0, 2] __binary_slice__"], tuple: false, module_field: Some("b") },
     Fam { key: "bin:0103", ty: "'bin", exprs: &["0x0103", "[0x01, 0x03] __binary_concat__"], tuple: false, module_field: None },
     Fam { key: "bin:empty", ty: "'bin", exprs: &["0x", "[0x01, 0, 0] __binary_slice__"], tuple: false, module_field: None },
-    Fam { key: "P{x:1,y:0102}", ty: "P[x: 'int, y: 'bin]", exprs: &["P[x: 1, y: 0x0102]", "P[x: [0, 1] __integer_add__, y: [0x01, 0x02] __binary_concat__]"], tuple: true, module_field: Some("p") },
-    Fam { key: "P{x:2,y:0102}", ty: "P[x: 'int, y: 'bin]", exprs: &["P[x: 2, y: 0x0102]", "P[x: [1, 1] __integer_add__, y: 0x0102]"], tuple: true, module_field: None },
-    Fam { key: "Q{x:1,y:0102}", ty: "Q[x: 'int, y: 'bin]", exprs: &["Q[x: 1, y: 0x0102]", "Q[x: 1, y: [0x01, 0x02] __binary_concat__]"], tuple: true, module_field: None },
-    Fam { key: "{x:1,y:0102}", ty: "[x: 'int, y: 'bin]", exprs: &["[x: 1, y: 0x0102]", "[x: [0, 1] __integer_add__, y: [0x01, 0x02] __binary_concat__]"], tuple: true, module_field: Some("u") },
+    Fam { key: "P{x:1,y:0102}", ty: "P[x: 'int, y: 'bin]", exprs: &["P[x: 1, y: 0x0102]", "P[x: [0, 1] __integer_add__, y: [0x01, 0x02] __binary_concat__]", "P[x: 1 wd, y: 0x0102]"], tuple: true, module_field: Some("p") },
+    Fam { key: "P{x:2,y:0102}", ty: "P[x: 'int, y: 'bin]", exprs: &["P[x: 2, y: 0x0102]", "P[x: [1, 1] __integer_add__, y: 0x0102]", "P[x: 2 wd, y: 0x0102]"], tuple: true, module_field: None },
+    Fam { key: "Q{x:1,y:0102}", ty: "Q[x: 'int, y: 'bin]", exprs: &["Q[x: 1, y: 0x0102]", "Q[x: 1, y: [0x01, 0x02] __binary_concat__]", "Q[x: 1 wd, y: 0x0102]"], tuple: true, module_field: None },
+    Fam { key: "{x:1,y:0102}", ty: "[x: 'int, y: 'bin]", exprs: &["[x: 1, y: 0x0102]", "[x: [0, 1] __integer_add__, y: [0x01, 0x02] __binary_concat__]", "[x: 1 wd, y: 0x0102]"], tuple: true, module_field: Some("u") },
     Fam { key: "{a:1,b:0102}", ty: "[a: 'int, b: 'bin]", exprs: &["[a: 1, b: 0x0102]", "[a: 1, b: [0x01, 0x02] __binary_concat__]"], tuple: true, module_field: None },
-    Fam { key: "[1,0102]", ty: "['int, 'bin]", exprs: &["[1, 0x0102]", "[[0, 1] __integer_add__, [0x01, 0x02] __binary_concat__]"], tuple: true, module_field: None },
-    Fam { key: "[P,5]", ty: "[P[x: 'int, y: 'bin], 'int]", exprs: &["[P[x: 1, y: 0x0102], 5]", "[P[x: [0, 1] __integer_add__, y: [0x01, 0x02] __binary_concat__], [2, 3] __integer_add__]"], tuple: true, module_field: None },
+    Fam { key: "[1,0102]", ty: "['int, 'bin]", exprs: &["[1, 0x0102]", "[[0, 1] __integer_add__, [0x01, 0x02] __binary_concat__]", "[1 wd, 0x0102]"], tuple: true, module_field: None },
+    Fam { key: "[P,5]", ty: "[P[x: 'int, y: 'bin], 'int]", exprs: &["[P[x: 1, y: 0x0102], 5]", "[P[x: [0, 1] __integer_add__, y: [0x01, 0x02] __binary_concat__], [2, 3] __integer_add__]", "[P[x: 1 wd, y: 0x0102], 5 wd]"], tuple: true, module_field: None },
     Fam { key: "Ok", ty: "Ok", exprs: &["Ok", "Ok"], tuple: true, module_field: None },
 ];
+
+/// More than 2^16 refs minted on one worker, next to refs minted on every other worker.
+fn mass_mint(rng: &mut Rng) -> Scenario {
+    let n = 65536 + rng.range(2, 12);
+    let nsmall = 2 + rng.usize(5);
+    let mut st: Vec<String> = vec![
+        "mint = #['int, 'ref, 'ref, 'ref, 'ref] { | =[0, a, b, c, d] => [a, b, c, d] | =[n, a, b, c, d] => [[n, 1] __integer_subtract__, b, c, d, __reference__] ^ }".into(),
+        "sm = #{ [__reference__, __reference__, __reference__, __reference__, __reference__, __reference__, __reference__, __reference__, __reference__, __reference__, __reference__, __reference__, __reference__, __reference__, __reference__, __reference__] }".into(),
+    ];
+    // small minters first and last so that one lands on every worker whatever the mass minter's placement
+    for i in 0..nsmall {
+        st.push(format!("s{i} = @sm"));
+    }
+    st.push(format!("m = @{{ r = __reference__, [{n}, r, r, r, r] mint }}"));
+    for i in nsmall..(2 * nsmall) {
+        st.push(format!("s{i} = @sm"));
+    }
+    let mut outs = vec!["!m".to_string()];
+    for i in 0..(2 * nsmall) {
+        outs.push(format!("!s{i}"));
+    }
+    st.push(format!("[{}]", outs.join(", ")));
+    let total = 4 + 16 * 2 * nsmall;
+    let mut k = 0;
+    let mut groups = Vec::new();
+    groups.push(format!("[{}]", (0..4).map(|_| { k += 1; format!("ref#{}", k - 1) }).collect::<Vec<_>>().join(", ")));
+    for _ in 0..(2 * nsmall) {
+        groups.push(format!("[{}]", (0..16).map(|_| { k += 1; format!("ref#{}", k - 1) }).collect::<Vec<_>>().join(", ")));
+    }
+    let _ = total;
+    let mut h = crate::rng::Fnv::default();
+    h.u64(0x3a55);
+    h.u64(nsmall as u64);
+    Scenario {
+        family: "c13-mass-mint".into(),
+        ops: vec![ClientOp::Line { session: 0, src: st.join(", ") }],
+        modules: vec![],
+        files: Default::default(),
+        timing: false,
+        io: false,
+        fixed_faults: Default::default(),
+        expect: serde_json::json!({ "value": format!("[{}]", groups.join(", ")), "transports": ["mass_mint_over_2_16_refs_on_one_worker"], "minters": 2 * nsmall + 1, "equal": 0, "unequal": 0 }),
+        shape: h.0,
+        est_len: 100,
+        min_quantum: 1000,
+    }
+}
 
 const MODULE: &str = "[p: P[x: 1, y: 0x0102], i: [2, 3] __integer_add__, b: [0x01, 0x02] __binary_concat__, u: [x: 1, y: 0x0102]]";
 
@@ -57,12 +104,16 @@ impl Property for C13 {
         "cases: pairs of values from a small universe (small/big ints, binaries as constant vs heap rope vs slice, named/unnamed/labelled tuples, nested, Ok) where one side is built locally and the other arrives as a process result, in a message to a comparer that captured the first, as a second spawn capture, from an in-memory module, or is built on a later REPL line after a same-shape tuple with different field types was merged; both orders of each comparison plus the reflexive one; refs minted by 1-4 processes (and the REPL process, across lines) returned and compared pairwise. The verdict vector must equal the model's structural equality, be symmetric and reflexive, and all minted refs must be pairwise distinct, under every sampled placement (1-6 workers) and schedule. Non-trivial: >=2 workers, >=1 out-of-order handled message, conclusive. Distinct = distinct (scenario shape, interleaving hash)."
     }
     fn required_probes(&self) -> Vec<&'static str> {
-        vec!["pair_via_process_result", "pair_via_message", "pair_via_spawn_capture", "pair_via_module", "pair_across_repl_lines", "refs_from_several_processes", "equal_pair_checked", "unequal_pair_checked"]
+        vec!["pair_via_process_result", "pair_via_message", "pair_via_spawn_capture", "pair_via_module", "pair_across_repl_lines", "refs_from_several_processes", "equal_pair_checked", "unequal_pair_checked", "mass_mint_over_2_16_refs_on_one_worker"]
     }
     fn generate(&self, rng: &mut Rng, _tier: Tier) -> Scenario {
         let mut h = crate::rng::Fnv::default();
         let npairs = 1 + rng.usize(6);
-        let mut lines: Vec<Vec<String>> = vec![vec![]]; // groups of statements; a new group = may start a new REPL line
+        if rng.chance(1, 20) {
+            return mass_mint(rng);
+        }
+        // `wd` widens an int to 'bin | 'int: tuples built through it get other inferred field types
+        let mut lines: Vec<Vec<String>> = vec![vec!["wd = #'int { | =0 => 0x00 | =n => n }".to_string()]]; // groups of statements; a new group = may start a new REPL line
         let mut expected: Vec<String> = Vec::new();
         let mut transports: Vec<&'static str> = Vec::new();
         let mut uses_module = false;
@@ -74,7 +125,7 @@ impl Property for C13 {
             let fb = if rng.chance(1, 2) { fa } else { rng.usize(FAMS.len()) };
             let (a, b) = (&FAMS[fa], &FAMS[fb]);
             let ea = *rng.pick(a.exprs);
-            let eb = *rng.pick(b.exprs);
+            let mut eb = *rng.pick(b.exprs);
             let equal = fa == fb;
             h.u64(fa as u64 * 31 + fb as u64);
             let mut tr = rng.below(6);
@@ -85,6 +136,17 @@ impl Property for C13 {
                 tr = 1;
             }
             h.u64(tr);
+            if tr == 2 && eb.contains(" wd") {
+                // a union-typed field would not type-check against the comparer's declared message type
+                eb = b.exprs[0];
+            }
+            if tr == 5 && a.tuple && b.tuple && rng.chance(2, 3) {
+                // prefer the construction path that infers other field types (a new tuple id of the
+                // same shape, first registered on the later line)
+                if let Some(w) = b.exprs.iter().find(|e| e.contains(" wd")) {
+                    eb = w;
+                }
+            }
             let cur = lines.last_mut().unwrap();
             cur.push(format!("a{k} = {ea}"));
             match tr {
@@ -220,6 +282,7 @@ impl Property for C13 {
             expect: serde_json::json!({ "value": expected_s, "transports": transports, "minters": nmint, "equal": eq_n, "unequal": ne_n }),
             shape: h.0,
             est_len: 100,
+            min_quantum: 0,
         }
     }
     fn monitor(&self, _scn: &Scenario) -> Box<dyn Monitor + Send> {
